@@ -144,6 +144,12 @@ class Model:
             self.fail(f"operator in `{norm(e)[:40]}` outside the model")
         if isinstance(e, ast.BinOp):
             a, b = self.ev(e.left, env), self.ev(e.right, env)
+            for x_, other_, swapped_ in ((a, b, False), (b, a, True)):
+                if hasattr(x_, "model_binop"):
+                    r_ = x_.model_binop(type(e.op).__name__, other_, swapped_)
+                    if r_ is NotImplemented:
+                        self.fail(f"arithmetic `{norm(e)[:50]}` outside the model")
+                    return r_
             ints = isinstance(a, int) and isinstance(b, int)
             seqs = isinstance(a, (tuple, list)) and type(a) is type(b)
             if isinstance(e.op, ast.Add) and (ints or seqs):
